@@ -44,10 +44,11 @@ def stmtKw : List Kind :=
 
 /-- a token of one of these kinds right after a statement (or a method header) would be taken as
     a continuation of it: expression continuations (`bad 8`), `absolute` after a declaration,
-    `to`/`downto`/`step` after a range, assignment operators, `#` and modifiers after a header -/
+    `to`/`downto`/`step` after a range, assignment operators, `#` and modifiers after a header,
+    `,` after a `uses` list, `multiLang` after a constant -/
 def sbad : List Kind :=
   bad 8 ++ [Kind.Absolute, Kind.To, Kind.DownTo, Kind.Step, Kind.DecrementAssign, Kind.IncrementAssign,
-            Kind.DeepAssign, Kind.Pound] ++ methodModKinds
+            Kind.DeepAssign, Kind.Pound, Kind.Comma, Kind.MultiLang] ++ methodModKinds
 
 /-- what may follow a statement -/
 def SStop (k : List Tok) : Prop := ∀ t r, k = t :: r → t.kind ∉ sbad
@@ -75,6 +76,70 @@ def okTree : Tree → Bool
   | .node k _ _ _ _ _ => k != "#none" && k != "#seq" && k != "#noend" && k != "#caught"
   | .leaf _ => false
 
+/-! ## pieces shared by statements and declarations -/
+
+def typeBasic (t : Tok) : Tree := mk "type_basic" t.value t.rng []
+
+/-- `, b , c …` after the first identifier of a `uses` list -/
+def commaToks : List (Tok × Tok) → List Tok
+  | [] => []
+  | (c, t) :: rest => c :: t :: commaToks rest
+
+def usesToks (kw first : Tok) (rest : List (Tok × Tok)) : List Tok := kw :: first :: commaToks rest
+
+def usesIds (first : Tok) (rest : List (Tok × Tok)) : List Tok := first :: rest.map (fun ct => ct.2)
+
+/-- `uses a, b, c`: no children; the names and their ranges are attributes -/
+def usesTree (kw first : Tok) (rest : List (Tok × Tok)) : Tree :=
+  mk "uses" "uses" ⟨kw.rng.s, (((usesIds first rest).getLast?).getD first).rng.e⟩ []
+    ((usesIds first rest).map (fun i => "uses=" ++ i.value) ++ (usesIds first rest).map (fun i => "urng=" ++ encRng i.rng))
+
+def commaWF : List (Tok × Tok) → Prop
+  | [] => True
+  | (c, t) :: rest => c.kind = Kind.Comma ∧ t.kind = Kind.Identifier ∧ commaWF rest
+
+def commaWfb : List (Tok × Tok) → Bool
+  | [] => true
+  | (c, t) :: rest => c.kind == Kind.Comma && t.kind == Kind.Identifier && commaWfb rest
+
+def usesWF (kw first : Tok) (rest : List (Tok × Tok)) : Prop :=
+  kw.kind = Kind.Uses ∧ first.kind = Kind.Identifier ∧ commaWF rest
+
+def usesWfb (kw first : Tok) (rest : List (Tok × Tok)) : Bool :=
+  kw.kind == Kind.Uses && first.kind == Kind.Identifier && commaWfb rest
+
+/-- `const c = literal [multiLang]` -/
+def constToks (kw name eq lit : Tok) (ml : Option Tok) : List Tok := [kw, name, eq, lit] ++ ml.toList
+
+def constTree (kw name lit : Tok) : Tree :=
+  mk "const_decl" name.value (Range.span kw.rng lit.rng) [] ["value=" ++ lit.value] (some name.rng)
+
+def constWF (kw name eq lit : Tok) (ml : Option Tok) : Prop :=
+  kw.kind = Kind.Const ∧ name.kind = Kind.Identifier ∧ eq.kind = Kind.Equals ∧
+  lit.kind ∈ [Kind.StringLiteral, Kind.NumericLiteral] ∧ (∀ m, ml = some m → m.kind = Kind.MultiLang)
+
+def constWfb (kw name eq lit : Tok) (ml : Option Tok) : Bool :=
+  kw.kind == Kind.Const && name.kind == Kind.Identifier && eq.kind == Kind.Equals &&
+  [Kind.StringLiteral, Kind.NumericLiteral].contains lit.kind &&
+  (match ml with | some m => m.kind == Kind.MultiLang | none => true)
+
+/-- `absolute x` after a variable declaration -/
+def absToks : Option (Tok × Tok) → List Tok
+  | none => []
+  | some (a, x) => [a, x]
+
+def absTrees : Option (Tok × Tok) → List Tree
+  | none => []
+  | some (_, x) => [terminal (.leaf x)]
+
+def absWF : Option (Tok × Tok) → Prop
+  | none => True
+  | some (a, x) => a.kind = Kind.Absolute ∧ x.kind ∈ identKinds
+
+def absWfb : Option (Tok × Tok) → Bool
+  | none => true
+  | some (a, x) => a.kind == Kind.Absolute && identKinds.contains x.kind
+
 /-! ## statements -/
 
 mutual
@@ -87,8 +152,12 @@ inductive Stmt (ε : Type) where
   | ret (kw : Tok) (e : ε)
   /-- `exit`, `break`, `continue` -/
   | ctl (kw : Tok)
-  /-- `var name : T` -/
-  | lvar (kw name colon ty : Tok)
+  /-- `var name : T [absolute x]` -/
+  | lvar (kw name colon ty : Tok) (abs : Option (Tok × Tok))
+  /-- `uses a, b, …` -/
+  | usesS (kw first : Tok) (rest : List (Tok × Tok))
+  /-- `const c = literal [multiLang]` -/
+  | constS (kw name eq lit : Tok) (ml : Option Tok)
   /-- `if c … tail` -/
   | ifS (kw : Tok) (c : ε) (body : List (Stmt ε)) (tail : IfTail ε)
   /-- `while c … endwhile` -/
@@ -120,7 +189,9 @@ def Stmt.toks : Stmt ε → List Tok
   | .expr e => X.toks e
   | .ret kw e => kw :: X.toks e
   | .ctl kw => [kw]
-  | .lvar kw name colon ty => [kw, name, colon, ty]
+  | .lvar kw name colon ty abs => kw :: name :: colon :: ty :: absToks abs
+  | .usesS kw first rest => usesToks kw first rest
+  | .constS kw name eq lit ml => constToks kw name eq lit ml
   | .ifS kw c body tail => kw :: (X.toks c ++ (Stmts.toks body ++ tail.toks))
   | .whileS kw c body endT => kw :: (X.toks c ++ (Stmts.toks body ++ [endT]))
   | .loopS kw body endT => kw :: (Stmts.toks body ++ [endT])
@@ -142,8 +213,6 @@ def IfTail.endTok : IfTail ε → Tok
   | .els _ _ endT => endT
   | .elif _ _ _ tail => tail.endTok
 
-def typeBasic (t : Tok) : Tree := mk "type_basic" t.value t.rng []
-
 /-- a finished block of an `if`: its range runs from `start` to its last statement (or its condition) -/
 def ifBlock (start : Range) (cond : Option Tree) (stmts : List Tree) : Tree :=
   condBlock (updRange start cond stmts) cond stmts
@@ -155,7 +224,11 @@ def Stmt.tree : Stmt ε → Tree
   | .expr e => X.tree e
   | .ret kw e => mk "return" "return" (Range.span kw.rng (X.tree e).rng) [X.tree e]
   | .ctl kw => terminal (.leaf kw)
-  | .lvar kw name _ ty => mk "lvar_decl" name.value (Range.span kw.rng ty.rng) [typeBasic ty] [] (some name.rng)
+  | .lvar kw name _ ty abs =>
+    mk "lvar_decl" name.value (Range.span kw.rng (match abs with | some (_, x) => x.rng | none => ty.rng))
+      ([typeBasic ty] ++ absTrees abs) [] (some name.rng)
+  | .usesS kw first rest => usesTree kw first rest
+  | .constS kw name _ lit _ => constTree kw name lit
   | .ifS kw c body tail =>
     mk "if" "if" (Range.span (Range.span kw.rng (X.tree c).rng) tail.endTok.rng)
       (tail.blocks (Range.span kw.rng kw.rng) (some (X.tree c)) (Stmts.trees body))
@@ -202,8 +275,10 @@ def Stmt.WF : Stmt ε → Prop
   | .expr e => exprOKb X e = true ∧ X.stmtb e = true ∧ firstKindOK exprStartOK (X.toks e) = true
   | .ret kw e => kw.kind = Kind.Return ∧ exprOKb X e = true
   | .ctl kw => kw.kind ∈ ctlKinds
-  | .lvar kw name colon ty =>
-    kw.kind = Kind.Var ∧ name.kind = Kind.Identifier ∧ colon.kind = Kind.Colon ∧ ty.kind = Kind.Identifier
+  | .lvar kw name colon ty abs =>
+    kw.kind = Kind.Var ∧ name.kind = Kind.Identifier ∧ colon.kind = Kind.Colon ∧ ty.kind = Kind.Identifier ∧ absWF abs
+  | .usesS kw first rest => usesWF kw first rest
+  | .constS kw name eq lit ml => constWF kw name eq lit ml
   | .ifS kw c body tail => kw.kind = Kind.If ∧ exprOKb X c = true ∧ Stmts.WF body ∧ tail.WF
   | .whileS kw c body endT => kw.kind = Kind.While ∧ exprOKb X c = true ∧ Stmts.WF body ∧ endT.kind = Kind.EndWhile
   | .loopS kw body endT => kw.kind = Kind.Loop ∧ Stmts.WF body ∧ endT.kind = Kind.EndLoop
@@ -229,8 +304,10 @@ def Stmt.wfb : Stmt ε → Bool
   | .expr e => exprOKb X e && X.stmtb e && firstKindOK exprStartOK (X.toks e)
   | .ret kw e => kw.kind == Kind.Return && exprOKb X e
   | .ctl kw => ctlKinds.contains kw.kind
-  | .lvar kw name colon ty =>
-    kw.kind == Kind.Var && name.kind == Kind.Identifier && colon.kind == Kind.Colon && ty.kind == Kind.Identifier
+  | .lvar kw name colon ty abs =>
+    kw.kind == Kind.Var && name.kind == Kind.Identifier && colon.kind == Kind.Colon && ty.kind == Kind.Identifier && absWfb abs
+  | .usesS kw first rest => usesWfb kw first rest
+  | .constS kw name eq lit ml => constWfb kw name eq lit ml
   | .ifS kw c body tail => kw.kind == Kind.If && exprOKb X c && Stmts.wfb body && tail.wfb
   | .whileS kw c body endT => kw.kind == Kind.While && exprOKb X c && Stmts.wfb body && endT.kind == Kind.EndWhile
   | .loopS kw body endT => kw.kind == Kind.Loop && Stmts.wfb body && endT.kind == Kind.EndLoop
@@ -407,10 +484,14 @@ inductive Decl (ε : Type) where
   | proc (kw : Tok) (name : MName) (ps : Option ParamList) (mods : List Mod) (body : Option (List (Stmt ε) × Tok))
   /-- `func Name [(params)] return T [modifiers] [… endfunc]` -/
   | func (kw : Tok) (name : MName) (ps : Option ParamList) (ret ty : Tok) (mods : List Mod) (body : Option (List (Stmt ε) × Tok))
-  /-- `const c = literal` -/
-  | const (kw name eq lit : Tok)
-  /-- `f : T` -/
-  | field (name colon ty : Tok)
+  /-- `const c = literal [multiLang]` -/
+  | const (kw name eq lit : Tok) (ml : Option Tok)
+  /-- `[memory] f : T [private|protected|final|override]* [absolute x]` -/
+  | field (mem : Option Tok) (name colon ty : Tok) (mods : List Tok) (abs : Option (Tok × Tok))
+  /-- `module aName` -/
+  | module (kw name : Tok)
+  /-- `uses a, b, …` -/
+  | uses (kw first : Tok) (rest : List (Tok × Tok))
   /-- `class aName [(aParent)]` -/
   | cls (kw name : Tok) (parent : Option (Tok × Tok × Tok))
 
@@ -426,8 +507,10 @@ def Decl.toks : Decl ε → List Tok
   | .proc kw name ps mods body => kw :: (name.toks ++ (optParamsToks ps ++ (modsToks mods ++ bodyToks X body)))
   | .func kw name ps ret ty mods body =>
     kw :: (name.toks ++ (optParamsToks ps ++ ret :: ty :: (modsToks mods ++ bodyToks X body)))
-  | .const kw name eq lit => [kw, name, eq, lit]
-  | .field name colon ty => [name, colon, ty]
+  | .const kw name eq lit ml => constToks kw name eq lit ml
+  | .field mem name colon ty mods abs => mem.toList ++ name :: colon :: ty :: (mods ++ absToks abs)
+  | .module kw name => [kw, name]
+  | .uses kw first rest => usesToks kw first rest
   | .cls kw name parent => kw :: name :: parentToks parent
 
 /-- `method_body`: spans its statements; an empty body has the range of the node before it -/
@@ -463,9 +546,17 @@ def Decl.tree : Decl ε → Tree
        | some m => m.rng
        | none => ty.rng)
       (modsAttrs mods) (bodyTrees X body)
-  | .const kw name _ lit =>
-    mk "const_decl" name.value (Range.span kw.rng lit.rng) [] ["value=" ++ lit.value] (some name.rng)
-  | .field name _ ty => mk "gvar_decl" name.value (Range.span name.rng ty.rng) [typeBasic ty] [] (some name.rng)
+  | .const kw name _ lit _ => constTree kw name lit
+  | .field mem name _ ty mods abs =>
+    mk "gvar_decl" name.value
+      (Range.span (match mem with | some m => m.rng | none => name.rng)
+        (match abs, mods with
+         | some (_, x), _ => x.rng
+         | none, m :: rest => (((m :: rest).getLast?).getD m).rng
+         | none, [] => ty.rng))
+      ([typeBasic ty] ++ absTrees abs) (mods.map (fun t => t.kind.name)) (some name.rng)
+  | .module kw name => mk "module" name.value (Range.span kw.rng name.rng) [] [] (some name.rng)
+  | .uses kw first rest => usesTree kw first rest
   | .cls kw name parent =>
     match parent with
     | none => mk "class" name.value (Range.span kw.rng name.rng) [] [] (some name.rng)
@@ -500,10 +591,12 @@ def Decl.WF : Decl ε → Prop
   | .func kw name ps ret ty mods body =>
     kw.kind = Kind.Func ∧ name.WF ∧ optParamsWF ps ∧ ret.kind = Kind.Return ∧ ty.kind = Kind.Identifier ∧
     modsWF mods ∧ bodyWF X Kind.EndFunc mods body
-  | .const kw name eq lit =>
-    kw.kind = Kind.Const ∧ name.kind = Kind.Identifier ∧ eq.kind = Kind.Equals ∧
-    lit.kind ∈ [Kind.StringLiteral, Kind.NumericLiteral]
-  | .field name colon ty => name.kind = Kind.Identifier ∧ colon.kind = Kind.Colon ∧ ty.kind = Kind.Identifier
+  | .const kw name eq lit ml => constWF kw name eq lit ml
+  | .field mem name colon ty mods abs =>
+    (∀ m, mem = some m → m.kind = Kind.Memory) ∧ name.kind = Kind.Identifier ∧ colon.kind = Kind.Colon ∧
+    ty.kind = Kind.Identifier ∧ (∀ t ∈ mods, t.kind ∈ memberModKinds) ∧ absWF abs
+  | .module kw name => kw.kind = Kind.Module ∧ name.kind = Kind.Identifier
+  | .uses kw first rest => usesWF kw first rest
   | .cls kw name parent => kw.kind = Kind.Class ∧ name.kind = Kind.Identifier ∧ parentWF parent
 
 def Decl.wfb : Decl ε → Bool
@@ -512,10 +605,12 @@ def Decl.wfb : Decl ε → Bool
   | .func kw name ps ret ty mods body =>
     kw.kind == Kind.Func && name.wfb && optParamsWfb ps && ret.kind == Kind.Return && ty.kind == Kind.Identifier &&
     modsWfb mods && bodyWfb X Kind.EndFunc mods body
-  | .const kw name eq lit =>
-    kw.kind == Kind.Const && name.kind == Kind.Identifier && eq.kind == Kind.Equals &&
-    [Kind.StringLiteral, Kind.NumericLiteral].contains lit.kind
-  | .field name colon ty => name.kind == Kind.Identifier && colon.kind == Kind.Colon && ty.kind == Kind.Identifier
+  | .const kw name eq lit ml => constWfb kw name eq lit ml
+  | .field mem name colon ty mods abs =>
+    (match mem with | some m => m.kind == Kind.Memory | none => true) && name.kind == Kind.Identifier &&
+    colon.kind == Kind.Colon && ty.kind == Kind.Identifier && mods.all (fun t => memberModKinds.contains t.kind) && absWfb abs
+  | .module kw name => kw.kind == Kind.Module && name.kind == Kind.Identifier
+  | .uses kw first rest => usesWfb kw first rest
   | .cls kw name parent => kw.kind == Kind.Class && name.kind == Kind.Identifier && parentWfb parent
 
 /-! ## programs -/
